@@ -90,7 +90,9 @@ Under(lvl, bt, upm, x, S) ==
 Explaining(lvl, bt, upm, x) == {S \in SUBSET AllDevs : Under(lvl, bt, upm, x, S)}
 Smallest(good) ==
     IF good = {} THEN [found |-> FALSE, devs |-> {}]
-    ELSE [found |-> TRUE, devs |-> CHOOSE S \in good : \A T \in good : Cardinality(S) <= Cardinality(T)]
+    ELSE \* smallest; among equally small ones rather one that does not blame the letter case
+         LET W(S) == 2 * Cardinality(S) + (IF "case" \in S THEN 1 ELSE 0) IN
+         [found |-> TRUE, devs |-> CHOOSE S \in good : \A T \in good : W(S) <= W(T)]
 Deviation(lvl, tab, upm, x) == Smallest(Explaining(lvl, BaseTable(tab, x), upm, x))
 
 RECURSIVE BadFrom(_, _, _)
